@@ -92,6 +92,11 @@ structure St where
   allocs : Nat
   /-- RLIMIT headroom of the current request: allocations fail while `fds ≥ cap` -/
   cap : Option Nat
+  /-- ghost (no influence on behaviour): `InodeStore::insert` has replaced a live non-root entry
+      ("the old inode will get lost") -/
+  clobbered : Bool := false
+  /-- ghost: number of `do_lookup`s that returned an entry so far -/
+  lookups : Nat := 0
   deriving Repr
 
 /-- static configuration + fault oracle -/
@@ -128,6 +133,11 @@ inductive HAns where
   | err (e : Errno)
   | ok (f : HFile)
   deriving Repr
+
+/-- `is_dir(entry.attr.st_mode)` of the answer -/
+def HAns.isDir : HAns → Bool
+  | .ok f => f.dir
+  | .err _ => false
 
 /-! ### descriptor ledger -/
 
@@ -225,7 +235,8 @@ def insertInode (s : St) (ino : Ino) (d : IData) : St :=
     byHandle := (match d.fh with
       | some h => mput s.byHandle h ino
       | none => s.byHandle),
-    data := mput s.data ino d }
+    data := mput s.data ino d,
+    clobbered := s.clobbered || (decide (ino ≠ ROOT_ID) && (mget s.data ino).isSome) }
 
 /-- `InodeStore::remove(inode, remove_data_only)` followed by the drop of the returned data -/
 def removeInode (s : St) (ino : Ino) (d : IData) (keepMapping : Bool) : St :=
@@ -243,16 +254,18 @@ def removeInode (s : St) (ino : Ino) (d : IData) (keepMapping : Bool) : St :=
 /-- `(unique_id << 47) | inode` -/
 def packIno (uid ino : Nat) : Nat := (uid <<< 47) ||| ino
 
+/-- the small unique id of a `(dev, mnt)` pair (`dev_mntid_map`, at most 254 pairs) -/
+def devUid (s : St) (id : InodeId) : St × Option Nat :=
+  match mget s.devMap (id.dev, id.mnt) with
+  | some u => (s, some u)
+  | none =>
+    if s.nextUid = 255 then (s, none)
+    else ({ s with devMap := mput s.devMap (id.dev, id.mnt) s.nextUid, nextUid := s.nextUid + 1 },
+          some s.nextUid)
+
 /-- `UniqueInodeGenerator::get_unique_inode` -/
 def getUniqueInode (s : St) (id : InodeId) : St × Except Errno Ino :=
-  let r : St × Option Nat :=
-    match mget s.devMap (id.dev, id.mnt) with
-    | some u => (s, some u)
-    | none =>
-      if s.nextUid = 255 then (s, none)
-      else ({ s with devMap := mput s.devMap (id.dev, id.mnt) s.nextUid, nextUid := s.nextUid + 1 },
-            some s.nextUid)
-  match r with
+  match devUid s id with
   | (s, none) => (s, .error EOTHER)
   | (s, some uid) =>
     if id.ino ≤ MAX_HOST_INO then (s, .ok (packIno uid id.ino))
@@ -279,33 +292,50 @@ def satAdd (a b : Nat) : Nat := min (a + b) U64_MAX
 def setRefs (s : St) (ino : Ino) (d : IData) (r : Nat) : St :=
   { s with data := mput s.data ino { d with refs := r } }
 
+/-- `to_openable_handle` for a file kept by handle; nothing to do for one kept by descriptor -/
+def toOpenable (e : Env) (s : St) (fh : Option FhId) : St × Option Errno :=
+  match fh with
+  | some _ => mountGet e s
+  | none => (s, none)
+
+/-- an `InodeHandle` that was prepared but not inserted, and `path_fd`, are dropped -/
+def dropPending (s : St) (fh : Option FhId) : St :=
+  match fh with
+  | some _ => freeFd (mountPut s)
+  | none => freeFd s
+
+/-- after the insert: kept by handle ⇒ `path_fd` is dropped at the end of `do_lookup`; kept by
+    descriptor ⇒ it has moved into the `InodeData` -/
+def settlePath (s : St) (fh : Option FhId) : St :=
+  match fh with
+  | some _ => freeFd s
+  | none => s
+
 /-- the tail of `do_lookup` after the probe missed: `to_openable_handle`, write lock, re-probe
     (cannot hit sequentially), `allocate_inode`, `insert_locked`.  On entry the `O_PATH`
     descriptor of the file is open. -/
 def lookupInsert (e : Env) (s : St) (f : HFile) : St × Except Errno Ino :=
-  match (match f.fh with
-         | some _ => mountGet e s
-         | none => (s, none)) with
+  match toOpenable e s f.fh with
   | (s, some er) => (freeFd s, .error er)
   | (s, none) =>
     match allocateInode e s f.id f.fh with
-    | (s, .error er) =>
-      -- `handle` and `path_fd` are dropped
-      ((match f.fh with
-        | some _ => freeFd (mountPut s)
-        | none => freeFd s), .error er)
+    | (s, .error er) => (dropPending s f.fh, .error er)
     | (s, .ok ino) =>
-      if ino > VFS_MAX_INO then
-        ((match f.fh with
-          | some _ => freeFd (mountPut s)
-          | none => freeFd s), .error EOTHER)
+      if ino > VFS_MAX_INO then (dropPending s f.fh, .error EOTHER)
       else
-        let s := insertInode s ino { id := f.id, fh := f.fh, refs := 1, safe := f.safe }
-        -- kept by handle: `path_fd` is dropped at the end of `do_lookup`; kept by descriptor: it
-        -- has moved into the `InodeData`
-        ((match f.fh with
-          | some _ => freeFd s
-          | none => s), .ok ino)
+        (settlePath { insertInode s ino { id := f.id, fh := f.fh, refs := 1, safe := f.safe }
+                      with lookups := s.lookups + 1 } f.fh,
+         .ok ino)
+
+/-- `do_lookup` once the file's `O_PATH` descriptor is open and its identity known: the
+    'search loop (load, saturating add, compare_exchange — succeeds at the first iteration
+    sequentially) or the insert path.  The `O_PATH` descriptor is dropped unless it moves into a
+    new `InodeData`. -/
+def lookupCore (e : Env) (s : St) (f : HFile) : St × Except Errno Ino :=
+  match getAlt s f.id f.fh with
+  | some (ino, d) =>
+    (freeFd { setRefs s ino d (satAdd d.refs 1) with lookups := s.lookups + 1 }, .ok ino)
+  | none => lookupInsert e s f
 
 /-- `PassthroughFs::do_lookup(parent, name)`; `a` is what the host resolves `name` to -/
 def doLookup (e : Env) (s : St) (p : Ino) (pst : Bool) (a : HAns) : St × Except Errno Ino :=
@@ -324,14 +354,8 @@ def doLookup (e : Env) (s : St) (p : Ino) (pst : Bool) (a : HAns) : St × Except
         match a with
         | .err er => (closeTemp (freeFd s) t, .error er)
         | .ok f =>
-          match getAlt s f.id f.fh with
-          | some (ino, d) =>
-            -- 'search loop: load, saturating add, compare_exchange (succeeds sequentially)
-            let s := setRefs s ino d (satAdd d.refs 1)
-            (closeTemp (freeFd s) t, .ok ino)
-          | none =>
-            match lookupInsert e s f with
-            | (s, r) => (closeTemp s t, r)
+          match lookupCore e s f with
+          | (s, r) => (closeTemp s t, r)
 
 /-- `PassthroughFs::forget_one`: root exempt, saturating decrement, removal at zero -/
 def forgetOne (e : Env) (s : St) (ino : Ino) (count : Nat) : St :=
@@ -476,9 +500,7 @@ def createTail (e : Env) (s : St) (p : Ino) (pst : Bool) (haveNew : Bool) (a : H
   | (s, .error er) => (closeTemp s haveNew, .err er)
   | (s, .ok ino) =>
     if haveNew then finishCreate e s ino
-    else if (match a with
-             | .ok f => f.dir
-             | .err _ => false) then
+    else if a.isDir then
       -- b9eb45b: an existing directory answers EISDIR before any open; reference released
       (forgetOne e s ino 1, .err 21)
     else
@@ -546,34 +568,41 @@ def rdpLoop (e : Env) (s : St) (dir : Ino) (fit : Nat) (tl : Tail) :
         | .full => (s, ((ino, false) :: acc).reverse, none)
         | .err => (s, ((ino, false) :: acc).reverse, if first then some 5 else none)
 
+/-- `get_dirdata`: the handle's directory stream, or (no_opendir) a temporary one -/
+def getDirdata (e : Env) (s : St) (ino : Ino) (h : Hnd) (dhr : Errno) : St × Option Errno × Bool :=
+  if !e.noOpendir then
+    if handleGet s h ino then (s, none, false) else (s, some EBADF, false)
+  else
+    match openInode e s ino dhr with
+    | (s, some er) => (s, some er, false)
+    | (s, none) => (s, none, true)
+
+/-- the `getdents64` batch holds something besides "." and ".." -/
+def hasRealEntry (l : List DEnt) : Bool :=
+  l.any fun d => match d with
+    | .dot => false
+    | .name _ => true
+
+/-- `consume_cached_cookie` -/
+def consumeCookie (e : Env) (s : St) (h : Hnd) : St :=
+  if !e.noOpendir then { s with cookies := s.cookies.filter (· ≠ h) } else s
+
+/-- `cache_cookie`: the last batch is non-empty iff it holds a real entry -/
+def cacheCookie (e : Env) (s : St) (h : Hnd) (l : List DEnt) : St :=
+  if !e.noOpendir && hasRealEntry l then { s with cookies := h :: s.cookies } else s
+
 /-- `readdirplus(inode, handle, size>0, offset 0)`; `dhr` = host answer for opening the directory
     in `no_opendir` mode, `lst` = answer of `getdents64` -/
 def opReaddirplus (e : Env) (s : St) (ino : Ino) (h : Hnd) (dhr : Errno)
     (lst : Except Errno (List DEnt)) (fit : Nat) (tl : Tail) : St × Res :=
-  -- get_dirdata
-  let r : St × Option Errno × Bool :=
-    if !e.noOpendir then
-      if handleGet s h ino then (s, none, false) else (s, some EBADF, false)
-    else
-      match openInode e s ino dhr with
-      | (s, some er) => (s, some er, false)
-      | (s, none) => (s, none, true)
-  match r with
+  match getDirdata e s ino h dhr with
   | (s, some er, _) => (s, .err er)
   | (s, none, tmp) =>
-    -- consume_cached_cookie
-    let s := if !e.noOpendir then { s with cookies := s.cookies.filter (· ≠ h) } else s
     match lst with
-    | .error er => (closeTemp s tmp, .err er)
+    | .error er => (closeTemp (consumeCookie e s h) tmp, .err er)
     | .ok l =>
-      -- cache_cookie: the last batch is non-empty iff it holds a real entry
-      let hasReal := l.any fun d => match d with
-        | .dot => false
-        | .name _ => true
-      let s := if !e.noOpendir && hasReal then { s with cookies := h :: s.cookies } else s
-      match rdpLoop e s ino fit tl l true [] with
-      | (s, acc, none) => (closeTemp s tmp, .ents acc none)
-      | (s, acc, some er) => (closeTemp s tmp, .ents acc (some er))
+      match rdpLoop e (cacheCookie e (consumeCookie e s h) h l) ino fit tl l true [] with
+      | (s, acc, er) => (closeTemp s tmp, .ents acc er)
 
 /-! ### other requests that touch the tables -/
 
@@ -625,26 +654,27 @@ def importRoot (e : Env) (s : St) (root : HAns) : St × Option Errno :=
     match root with
     | .err er => (freeFd s, some er)
     | .ok f =>
-      match (match f.fh with
-             | some _ => mountGet e s
-             | none => (s, none)) with
+      match toOpenable e s f.fh with
       | (s, some er) => (freeFd s, some er)
       | (s, none) =>
-        let s := insertInode s ROOT_ID { id := f.id, fh := f.fh, refs := 2, safe := f.safe }
-        ((match f.fh with
-          | some _ => freeFd s
-          | none => s), none)
+        (settlePath (insertInode s ROOT_ID { id := f.id, fh := f.fh, refs := 2, safe := f.safe }) f.fh,
+         none)
 
 /-- dropping every `InodeData` of the store -/
 def dropAll (s : St) : List (Ino × IData) → St
   | [] => s
   | (_, d) :: r => dropAll (dropIData s d) r
 
+/-- `handle_map.clear(); inode_map.clear()`: every handle's descriptor is closed, every
+    `InodeData` dropped, all three maps of the store emptied -/
+def clearAll (s : St) : St :=
+  let s1 : St := { s with fds := s.fds - s.handles.length, handles := [], cookies := [] }
+  let s2 : St := { s1 with data := [], byId := [], byHandle := [] }
+  dropAll s2 s.data
+
 /-- `destroy()`: clear the handle map (descriptors closed), clear the inode store, re-import -/
 def opDestroy (e : Env) (s : St) (root : HAns) : St × Res :=
-  let s := { s with fds := s.fds - s.handles.length, handles := [], cookies := [] }
-  let s := dropAll { s with data := [], byId := [], byHandle := [] } s.data
-  match importRoot e s root with
+  match importRoot e (clearAll s) root with
   | (s, _) => (s, .ok)
 
 /-- `init()`: import (flags are part of `Env`) -/
